@@ -113,3 +113,6 @@ Qed.
 (* for every octet string: the decoder returns a message or an ordinary error *)
 Lemma decode_total b : is_panic (decode b) = false /\ decode b <> Err E_FUEL.
 Proof. apply good_spec, decode_good. Qed.
+
+Lemma get_name_total buf c : is_panic (get_name buf c) = false /\ get_name buf c <> Err E_FUEL.
+Proof. apply good_spec, get_name_good. Qed.
